@@ -58,7 +58,7 @@ def sx_float(x=0.0):
         x = x.scalar_value()
     if isinstance(x, (SInt, SBool)):
         t, n, i = S.rparts(x)
-        return SReal(t, n, i)
+        return SReal(t, n, i, S.ipart(x))
     if isinstance(x, SReal):
         return x
     return float(x)
